@@ -86,6 +86,24 @@ EdgeBody(k) == LET src == EdgeSeq[k]  d == [q |-> "d", src |-> src] IN
   <<RawNode(C("x:b-c"), <<d>>, << >>),
     Cont(Ids[1], <<RawNode(C("description"), <<d>>, << >>),
                    RawNode(C("x:b-c"), <<[q |-> "d", src |-> HeadOf(src)], [q |-> "d", src |-> TailOf(src)]>>, << >>)>>)>>
+\* the same for characters that are white space to Unicode only (and CRs outside a line break) at the edges and in the middle
+\* of the lines (YangString!Exo2): they are ordinary characters of the argument
+ExoSeq == SetToSeq(UNION {Exo2(x, 12, <<LF>>, FALSE) \cup Exo2(x, 3, <<CR, LF>>, FALSE) : x \in ExoChars})
+NExo == Len(ExoSeq)
+ExoBody(k) == LET src == ExoSeq[k]  d == [q |-> "d", src |-> src] IN
+  <<RawNode(C("x:b-c"), <<d>>, << >>),
+    Cont(Ids[1], <<RawNode(C("description"), <<d>>, << >>), RawNode(C("x:b-c"), <<[q |-> "s", src |-> src]>>, << >>)>>)>>
+\* blocks of every size: a block of n statements (with and without blocks of their own), followed by further non-empty blocks -
+\* after it in the enclosing block, or the enclosing block goes on after it.  Every statement of every block must be found
+\* where the source has it, whatever was parsed after it.
+RECURSIVE DecT(_)
+DecT(k) == IF k < 10 THEN <<48 + k>> ELSE DecT(k \div 10) \o <<48 + (k % 10)>>
+BigStmt(v, i) == IF v = 0 THEN XA("x:b-c", C("v") \o DecT(i)) ELSE Leaf(C("l") \o DecT(i), << >>)
+BigBody(n, v) == IF v < 2 THEN <<Cont(Ids[1], [i \in 1..n |-> BigStmt(v, i)]), Cont(Ids[2], <<Leaf(C("x"), << >>), Leaf(C("y"), << >>)>>)>>
+                 ELSE IF v = 2 THEN <<Cont(Ids[1], <<Cont(Ids[2], [i \in 1..n |-> BigStmt(n % 2, i)]), Leaf(C("x"), << >>)>>), Terms[1]>>
+                 ELSE [i \in 1..n |-> BigStmt((n + 1) % 2, i)] \o <<Cont(Ids[2], <<Terms[2], Terms[1]>>)>>
+BigSizes == IF Thorough THEN (1..80) \cup {96, 127, 128, 129, 143, 144, 160, 255, 256, 257, 300} ELSE 1..80
+BigVariants(n) == IF Thorough /\ n <= 80 THEN 0..3 ELSE {n % 4, (n + 1 + (n \div 4)) % 4}
 \* which small trees get the full set of layouts (all of them in the thorough tier)
 \* ("shift": trees with fixed source forms get the blank trivia only, which is what moves an occurrence to another column)
 FullSet(i, body) == IF HasRaw(Module(body)) THEN (IF Thorough THEN "full" ELSE "shift")
@@ -136,11 +154,33 @@ Layouts(f, tid, body, full) ==
      \cup {LET e == RandomElement(0..(Len(TrivEnd) - 1)) IN
            Vec(f, tid, src, Layout([b \in 1..k |-> RandomElement(0..(MaxMenu - 1))], [b \in 1..k |-> RandomElement(0..5)], src, e), Feat("random", 0, j), e) : j \in 1..(IF full = "light2" /\ NLay > 2 /\ ~Thorough THEN 2 ELSE NLay)}
 
+\* a text that starts with a byte order mark (directly followed by the first keyword): every statement is where it is in the
+\* text handed to the parser - the mark is a character of line 1 (3 bytes), lines and columns below are what they are
+\* without it.  Layouts: compact, a line break at every boundary (every keyword in column 0), a line break and four
+\* blanks, and random ones.
+BomLayouts(f, tid, body) ==
+  LET src == Module(body)  k == NSlots(src)
+      fix(P) == [P EXCEPT ![1] = 0]
+      V(P, Q, e, feat) == [Vec(f, tid, src, LayoutFrom(<<BOM>>, fix(P), Q, src, e), feat, e) EXCEPT !.layoutFree = FALSE]
+  IN {V([b \in 1..k |-> t], Zero(k), 0, Feat("bom", 0, t)) : t \in {0, 3, 6, 1}}
+     \cup {LET e == RandomElement(0..(Len(TrivEnd) - 1)) IN
+           V([b \in 1..k |-> RandomElement(0..(MaxMenu - 1))], [b \in 1..k |-> RandomElement(0..5)], e, Feat("bom-random", 0, j)) : j \in 1..(IF Thorough THEN NLay ELSE 2)}
+\* big blocks: the compact layout, one line per statement, and (smaller ones) a random layout
+BigLayouts(f, tid, body, n) ==
+  LET src == Module(body)  k == NSlots(src) IN
+  {Vec(f, tid, src, Layout([b \in 1..k |-> t], Zero(k), src, 0), Feat("big", 0, t), 0) : t \in {0, 6}}
+  \cup (IF n <= 40 THEN {LET e == RandomElement(0..(Len(TrivEnd) - 1)) IN
+         Vec(f, tid, src, Layout([b \in 1..k |-> RandomElement(0..(MaxMenu - 1))], [b \in 1..k |-> RandomElement(0..5)], src, e), Feat("random", 0, 1), e)} ELSE {})
+
 Cases ==
   UNION {Layouts(fam, i, Small[i], FullSet(i, Small[i])) : i \in {i \in 1..Len(Small) : i % NFam = fam % NFam}}
   \cup UNION {Layouts(fam, 500 + k, ChoiceBody(k), "light2") : k \in {k \in 0..(NChoice - 1) : k % NFam = fam % NFam}}
   \cup UNION {Layouts(fam, 3000 + k, EdgeBody(k), "light2") : k \in {k \in 1..NEdge : k % NFam = fam % NFam /\ (Thorough \/ k % 3 = 0)}}
   \cup UNION {Layouts(fam, 2000 + k, EscBody(k), "light2") : k \in {k \in 1..NEsc : k % NFam = fam % NFam /\ (Thorough \/ k % 2 = 0)}}
+  \cup UNION {Layouts(fam, 7000 + k, ExoBody(k), "light2") : k \in {k \in 1..NExo : k % NFam = fam % NFam /\ k % (IF Thorough THEN 16 ELSE 40) = 0}}
+  \cup UNION {UNION {BigLayouts(fam, 4000 + 4 * n + v, BigBody(n, v), n) : v \in BigVariants(n)} : n \in {n \in BigSizes : n % NFam = fam % NFam}}
+  \cup UNION {BomLayouts(fam, 6000 + i, Small[i]) : i \in {i \in 1..Len(Small) : i % NFam = fam % NFam /\ (Thorough \/ i % 2 = 0)}}
+  \cup UNION {BomLayouts(fam, 6500 + n, BigBody(n, 1)) : n \in {n \in {3, 17, 33} : n % NFam = fam % NFam}}
   \cup UNION {Layouts(fam, 1000 * (fam + 1) + j, RandBody(j), "full") : j \in 1..NTrees}
 GInit == fam \in 0..(NFam - 1) /\ done = FALSE
 GNext == /\ ~done /\ done' = TRUE /\ UNCHANGED fam
